@@ -2,6 +2,8 @@
 (* impl -> spec for C11.  Each trace is one ground agent of one REAL scenario    *)
 (* (harness/drivers/c11.py):                                                    *)
 (*   [startSec, dt, plan |-> step sizes (s), one per logged step, db |-> 0/1,     *)
+(*    join |-> scenario steps of dt taken before the agent was added (st holds   *)
+(*             the steps after that; all times stay relative to the scenario start),*)
 (*    invMs |-> Terrestrial.datetime_start minus the authoritative start, in ms,  *)
 (*    st |-> << per step k = 1, 2, ...:                                          *)
 (*       [clockMs     |-> clock.datetime_epoch - start (ms),                     *)
@@ -39,11 +41,13 @@ PickTrace == /\ i < 0
              /\ \E j \in {n \in DOMAIN Tr : n % NB = (-i) - 1} :
                   /\ i' = j /\ startSec' = Tr[j].startSec /\ dt' = Tr[j].dt /\ plan' = Tr[j].plan
              /\ pc' = "posed"
-             /\ UNCHANGED <<lon, theta0, invErr, clockSec, k, siteEpoch, inertial, vel>>
-TraceBuild == /\ i > 0 /\ Build /\ UNCHANGED i
+             /\ UNCHANGED <<lon, theta0, invErr, clockSec, k, siteEpoch, inertial, vel, join, siteLon>>
+\* the scenario steps Tr[i].join times before the agent is added (Scenario.addSensor)
+TraceWait  == /\ i > 0 /\ join < Tr[i].join /\ Wait /\ UNCHANGED i
+TraceBuild == /\ i > 0 /\ join = Tr[i].join /\ Build /\ UNCHANGED i
 \* every trace carries its plan of step sizes (a scenario: the physics step, once per step)
 TraceStep  == /\ i > 0 /\ k < Len(Tr[i].st) /\ PlanStep /\ UNCHANGED i
-TraceNext == PickBlock \/ PickTrace \/ TraceBuild \/ TraceStep
+TraceNext == PickBlock \/ PickTrace \/ TraceWait \/ TraceBuild \/ TraceStep
 TraceSpec == TraceInit /\ [][TraceNext]_tvars
 
 Rec == Tr[i].st[k]
